@@ -110,10 +110,9 @@ def run_history(root, hist, depth_ops=None):
         if warm and i < len(hist) - 1:
             eval_all(w)
     info = {"rm": w.rm, "rejected": obs and obs[-1][0] != "ok"}
-    if info["rejected"]:
-        # rejected although the reference deems it well-formed: not C03's business unless state changed
-        canon = session_canon(with_graph=False)
-        return canon, [], digest(obs), info
+    # a rejected operation was not applied to the reference definitions either: "at every moment" the spaces
+    # hold what derivation from the (unchanged) definitions gives; whether it should have been accepted is not
+    # judged here
     viols, iv = judge(w, case)
     canon = session_canon(with_graph=False)
     if not viols:
@@ -203,10 +202,27 @@ def roots(tier):
         for members in (NAMES3, ["A", "C"]):
             out.append({"bases": {"A": [], "B": [], "C": [], "S": list(perm)}, "x": list(members),
                         "y": list(members), "mode": "wide"})
+    # five spaces: DAGs with paths of unequal length between a space and a descendant (the order in which the
+    # sub spaces are re-derived matters); x defined at the top / in two spaces
+    from mxmc.structfam import layered_dags5
+    for bases in layered_dags5(True):
+        out.append({"bases": bases, "x": ["N"], "y": [], "mode": "five"})
+        if tier == "thorough":
+            out.append({"bases": bases, "x": ["X"], "y": ["N"], "mode": "five"})
+            out.append({"bases": bases, "x": ["N", "P"], "y": [], "mode": "five"})
     return out
 
 
+def enabled_five(hist, info):
+    rm = info["rm"]
+    if info.get("rejected"):
+        return []
+    return [op for op in struct_ops(rm, None, with_new_space=False, with_cached=False) if valid_in_ref(rm, op)]
+
+
 def depth_for(root, tier):
+    if root.get("mode") == "five":
+        return 1 if tier == "quick" or len(root["x"]) > 1 or root["y"] else 2
     if root.get("mode") == "refs":
         return 2 if tier == "quick" else 3
     if root.get("mode") == "wide":
@@ -225,7 +241,7 @@ def work_items(tier, seed):
 
 def run_item(item, tier):
     root = item["root"]
-    en = {"refs": enabled_refs, "wide": enabled_wide}.get(root.get("mode"), enabled)
+    en = {"refs": enabled_refs, "wide": enabled_wide, "five": enabled_five}.get(root.get("mode"), enabled)
     res = bfs.explore(lambda h: run_history(root, h), en, depth_for(root, tier))
     res.samples = [{"root": root, "history": h} for h in res.samples[:1]]
     return res.as_item_result()
